@@ -11,6 +11,10 @@ for p in props:
     if pid not in CHECKS or CHECKS[pid].get("unregistered"):
         continue
     c = CHECKS[pid]
+    b = c.get("bounds", {})
+    btxt = "; ".join("%s: %s" % (k, v) for k, v in b.items()) if isinstance(b, dict) else str(b)
+    text = c.get("level_text") or ("bounded symbolic execution (path exploration + SMT) of the real handlers; all inputs and pre-states within the bounds: " + (btxt or "see evidence file"))
+    note = c.get("level_note") or ("outside the claim: " + "; ".join(c.get("outside", ["see evidence file"])))
     checks.append({
         "property_id": pid,
         "quick_cmd": "python3 check.py %s --tier quick" % pid,
@@ -18,8 +22,8 @@ for p in props:
         "evidence_file": "/verif/evidence/%s.json" % pid,
         "replay_cmd_template": "python3 check.py --replay {path}",
         "engine": "gosym",
-        "level_claimed": {"category": "model_checking", "text": c.get("level_text", ""), "design_ref": c.get("design_ref", "DESIGN.md section 8 " + pid)},
-        "level_note": c.get("level_note", ""),
+        "level_claimed": {"category": "model_checking", "text": text[:1500], "design_ref": c.get("design_ref", "DESIGN.md sections 0.2 and 8 (" + pid + ")")},
+        "level_note": note[:1500],
         "technique": c.get("technique", "bounded symbolic execution of the real Go code from go/ssa; each obligation decided by an SMT verdict (z3 5.1 / cvc5 portfolio); sat answers replayed natively"),
     })
 na = []
